@@ -34,7 +34,7 @@ FREE_VALUES = ["2/3", "5/7", "-3/5", "7/4", "11/9", "-2/7", "4/3", "9/5"]
 def budget(tier):
     ex = int(os.environ.get("VERIF_EXAMPLES", "0"))
     if tier == "quick":
-        return dict(shards=16, examples=ex or 8, shrink_calls=10, shard_timeout=1500, time_budget=110)
+        return dict(shards=16, examples=ex or 20, shrink_calls=10, shard_timeout=1500, time_budget=110)
     return dict(shards=16, examples=ex or 600, shrink_calls=60, shard_timeout=6 * 3600, time_budget=1500)
 
 
@@ -47,7 +47,10 @@ def E(s):
 
 @st.composite
 def noise(draw):
-    kind = draw(st.sampled_from(["toggle", "bernoulli", "choice", "none"]))
+    kind = draw(st.sampled_from(["toggle", "bernoulli", "choice", "none", "counter"]))
+    if kind == "counter":
+        # an effective variable whose expectation is a non-constant polynomial in n
+        return [["assign", "z", ["expr", E("z + 1")]]], [["assign", "z", ["expr", L.num(draw(st.sampled_from(["0", "1", "-2"])))]]]
     if kind == "toggle":
         return [["assign", "z", ["expr", E("1 - z")]]], [["assign", "z", ["expr", L.num(0)]]]
     if kind == "bernoulli":
@@ -66,6 +69,8 @@ def cases(draw, tier="quick"):
     zt = "z" if nz_body else "0"
     if fam == "squares":
         al, be, ga = (draw(st.sampled_from(CO)) for _ in range(3))
+        if draw(st.integers(0, 2)) == 0:
+            al = "1"  # Q(n+1) = Q(n) + effective part: solved by summing
         f1, f2 = draw(st.sampled_from(["0", "1", "2", "-1"])), draw(st.sampled_from(["0", "1", "2", "3"]))
         al2 = al if not perturbed else draw(st.sampled_from([c for c in CO if c != al]))
         body = nz_body + [["assign", "x", ["expr", E(f"({al})*x + ({be})*y**2 + ({f1})*{zt}")]],
